@@ -561,7 +561,7 @@ def _mk_dataset(case, base=0.0):
 MODEL_KINDS = ['fixed', 'select', 'weighted', 'interpolate', 'base', 'fixed-multi', 'fixed-vector']
 
 
-def _mk_model(mkind, i, n_cond, seed, name=None):
+def _mk_model(mkind, i, n_cond, seed, name=None, vals='plain'):
     import rsatoolbox.model as M
     from rsatoolbox.rdm import RDMs
     name = name if name is not None else 'm%d' % i
@@ -569,7 +569,7 @@ def _mk_model(mkind, i, n_cond, seed, name=None):
     if mkind == 'base':
         return M.Model(name)
     n_r = 1 if mkind in ('fixed', 'fixed-vector') else 3
-    vec = _values((n_r, n_pair), 'plain', base=1000.0 * (i + 1) + seed)
+    vec = _values((n_r, n_pair), vals, base=1000.0 * (i + 1) + seed)
     if mkind == 'fixed-vector':
         return M.ModelFixed(name, vec[0])
     rdm = RDMs(vec, dissimilarity_measure='euclidean', descriptors={'source': 'layer%d' % i, 'depth': i},
@@ -586,7 +586,10 @@ def _mk_result(case):
     rs = np.random.RandomState(seed)
     kinds = case.get('model_kinds', ['fixed'])
     names = case.get('names')
-    models = [_mk_model(kinds[i % len(kinds)], i, n_cond, seed, None if names is None else names[i % len(names)] + str(i))
+    # 'names_dup': every model carries the SAME name (the order / identity of the models must not hang on the names)
+    models = [_mk_model(kinds[i % len(kinds)], i, n_cond, seed,
+                        'same' if case.get('names_dup') else None if names is None else names[i % len(names)] + str(i),
+                        vals=case.get('model_vals', 'plain'))
               for i in range(n_model)]
     n_boot, n_cv = case.get('n_boot', 6), case.get('n_cv', 3)
     shape = {2: (n_boot, n_model), 3: (n_boot, n_model, n_cv), 4: (n_boot, n_model, n_cv, 2)}[case.get('eval_ndim', 3)]
@@ -609,6 +612,13 @@ def _mk_result(case):
         var = np.einsum('kij,klj->kil', a, a) / 50
         var[0] += var[1] + var[2]
     nc = np.array([0.6, 0.9]) if case.get('nc', '1d') == '1d' else np.stack([0.5 + rs.rand(n_boot) * 0.1, 0.8 + rs.rand(n_boot) * 0.1])
+    unit = case.get('unit')
+    if unit is not None:            # sweep: evaluations in extreme but legitimate units (variances in units squared)
+        ev, nc = ev * unit, nc * unit
+        var = None if var is None else var * unit * unit
+    if case.get('ev_dtype'):        # sweep: typed evaluations / variances / noise ceiling
+        ev, nc = ev.astype(case['ev_dtype']), nc.astype(case['ev_dtype'])
+        var = None if var is None else var.astype(case['ev_dtype'])
     return Result(models, ev, case.get('method', 'corr'), case.get('cv_method', 'bootstrap_rdm'), nc, variances=var,
                   dof=case.get('dof', 7), n_rdm=case.get('n_rdm'), n_pattern=case.get('n_pattern'))
 
@@ -885,7 +895,15 @@ def orc_rdms(case):
         return r
     if _eq_usable(obj) and _eq_usable(got) and not (got == obj):
         return f'{label}: all fields are equal but `loaded == original` is False'
-    if obj.n_cond >= 2:
+    if case.get('twice'):       # the loaded object is an RDMs object like any other: saved and loaded again it is still equal
+        with warnings.catch_warnings():
+            warnings.simplefilter('ignore')
+            with tempfile.TemporaryDirectory() as td:
+                got2 = _transport(td, got.save, load_rdm, case['fmt'], case['target'], stem='again')
+        r = _cmp_rdms(snap, got2, label + ' second round trip (the loaded object saved and loaded again)')
+        if r:
+            return r
+    if obj.n_cond >= 2 and obj.n_rdm >= 1:
         return _cmp_rdms(vars(_followup_rdms(obj)), _followup_rdms(got), label + ' after subset_pattern+subset')
     return None
 
@@ -919,6 +937,14 @@ def orc_dataset(case):
         return r
     if _eq_usable(obj) and _eq_usable(got) and not (got == obj):
         return f'{label}: all fields are equal but `loaded == original` is False'
+    if case.get('twice'):
+        with warnings.catch_warnings():
+            warnings.simplefilter('ignore')
+            with tempfile.TemporaryDirectory() as td:
+                got2 = _transport(td, got.save, load_dataset, case['fmt'], case['target'], stem='again')
+        r = _cmp_dataset(snap, got2, cls_name, label + ' second round trip (the loaded object saved and loaded again)')
+        if r:
+            return r
     if case.get('followup', True):
         a = _call(_followup_dataset, obj)
         b = _call(_followup_dataset, got)
@@ -951,14 +977,19 @@ def _model_load(filename, file_type=None):
 
 @oracle('C16/model')
 def orc_model(case):
-    m = _mk_model(case['mkind'], case.get('i', 0), case['n_cond'], case.get('seed', 0), name=case.get('name'))
+    m = _mk_model(case['mkind'], case.get('i', 0), case['n_cond'], case.get('seed', 0), name=case.get('name'),
+                  vals=case.get('vals', 'plain'))
     snap = _snapshot(m)
     label = f"{type(m).__name__} {case['fmt']}/{case['target']}"
     with warnings.catch_warnings():
         warnings.simplefilter('ignore')
         with tempfile.TemporaryDirectory() as td:
             got = _transport(td, _model_save(m), _model_load, case['fmt'], case['target'])
-    return _unchanged(snap, m, label) or _cmp_model(m, got, label)
+            got2 = _transport(td, _model_save(got), _model_load, case['fmt'], case['target'], stem='again') if case.get('twice') else None
+    r = _unchanged(snap, m, label) or _cmp_model(m, got, label)
+    if r is None and got2 is not None:
+        r = _cmp_model(m, got2, label + ' second round trip (the loaded model saved and loaded again)')
+    return r
 
 
 @oracle('C16/result')
@@ -972,7 +1003,11 @@ def orc_result(case):
         warnings.simplefilter('ignore')
         with tempfile.TemporaryDirectory() as td:
             got = _transport(td, res.save, load_results, case['fmt'], case['target'])
-    return _unchanged(snap, res, label) or _cmp_result(res, outs0, got, label)
+            got2 = _transport(td, got.save, load_results, case['fmt'], case['target'], stem='again') if case.get('twice') else None
+    r = _unchanged(snap, res, label) or _cmp_result(res, outs0, got, label)
+    if r is None and got2 is not None:
+        r = _cmp_result(res, outs0, got2, label + ' second round trip (the loaded Result saved and loaded again)')
+    return r
 
 
 # ---- histories ----------------------------------------------------------------------------------------
@@ -1175,6 +1210,8 @@ def _cmp_any(kind, obj, got, label):
         return _cmp_rdms(vars(obj), got, label)
     if kind in ('dataset', 'temporal'):
         return _cmp_dataset(vars(obj), got, type(obj).__name__, label)
+    if kind == 'model':
+        return _cmp_model(obj, got, label)
     return _cmp_result(obj, _result_outputs(obj), got, label)
 
 
@@ -1187,6 +1224,15 @@ def orc_overwrite(case):
     kind, fmt, target = case['kind'], case['fmt'], case['target']
     load = {'rdms': load_rdm, 'dataset': load_dataset, 'temporal': load_dataset, 'result': load_results}[kind]
     A, B = _ow_objects(kind)
+    # sweep ("existing output files"): what the existing file holds.  'larger' (default): an older, larger object of the same
+    # format; 'smaller': an older, smaller one; 'same': an object equal to the new one; 'empty-file': zero bytes; 'garbage':
+    # bytes that are no file of either format; 'other-format': the old object in the OTHER format under this suffix
+    old = case.get('old', 'larger')
+    if old == 'smaller':
+        A, B = B, A
+    elif old == 'same':
+        A = _ow_objects(kind)[1]
+    old_is_obj = old in ('larger', 'smaller', 'same')
     snapB = _snapshot(B)
     with warnings.catch_warnings():
         warnings.simplefilter('ignore')
@@ -1195,10 +1241,22 @@ def orc_overwrite(case):
             fresh = os.path.join(td, 'fresh' + EXT[fmt])
             B.save(fresh, file_type=fmt)
             tree_b = _tree(fresh, fmt)
-            A.save(p, file_type=fmt)
-            tree_a = _tree(p, fmt)
-            only_a = tree_a - tree_b
-            if not only_a:
+            if old_is_obj:
+                A.save(p, file_type=fmt)
+                tree_a = _tree(p, fmt)
+            else:
+                if old == 'empty-file':
+                    open(p, 'wb').close()
+                elif old == 'garbage':
+                    with open(p, 'wb') as f:
+                        f.write(b'this is neither an HDF5 file nor a pickle\n' * 40)
+                else:
+                    A.save(p, file_type={'hdf5': 'pkl', 'pkl': 'hdf5'}[fmt])
+                fresh_a = os.path.join(td, 'freshA' + EXT[fmt])
+                A.save(fresh_a, file_type=fmt)
+                tree_a = _tree(fresh_a, fmt)
+            only_a = (tree_a - tree_b) if old_is_obj else set()
+            if old == 'larger' and not only_a:
                 return 'test set-up: the old object has no name of its own'
             with open(p, 'rb') as f:
                 bytes_a = f.read()
@@ -1217,7 +1275,7 @@ def orc_overwrite(case):
                 with open(p, 'rb') as f:
                     if f.read() != bytes_a:
                         return f'{kind}.save(existing hdf5 path) raised ValueError but the file content changed'
-                r = _cmp_any(kind, A, load(p), f'{kind} after the refused save: old object')
+                r = _cmp_any(kind, A, load(p), f'{kind} after the refused save: old object') if old_is_obj else None
                 if r:
                     return r
                 try:
@@ -1228,7 +1286,7 @@ def orc_overwrite(case):
                 r = _unchanged(snapB, B, 'refused save')
                 if r:
                     return r
-            if fmt == 'pkl' and target == 'path':
+            if fmt == 'pkl' and target == 'path' and old == 'larger':
                 # (1') a plain save onto an existing pickle path: either it is refused (raises) or reading back yields the
                 # object that was written -- the round trip is promised for every write, it must never return the OLD object
                 p2 = os.path.join(td, 'again' + EXT[fmt])
@@ -1248,7 +1306,9 @@ def orc_overwrite(case):
             else:
                 with open(p, 'r+b') as fh:
                     B.save(fh, file_type=fmt, overwrite=True)
-            label = f'{kind} {fmt}/{target} overwrite=True on a file holding an older, larger object'
+            label = f'{kind} {fmt}/{target} overwrite=True on a file holding ' + {
+                'larger': 'an older, larger object', 'smaller': 'an older, smaller object', 'same': 'an equal object',
+                'empty-file': 'zero bytes', 'garbage': 'bytes of no known format', 'other-format': 'an object in the other format'}[old]
             tree_now = _tree(p, fmt)
             left = sorted(tree_now & only_a)
             if left:
@@ -1300,10 +1360,221 @@ def orc_dispatch(case):
             return None if res[0] == 'exc' else f'{label}: returned an object although the file is {fmt}'
 
 
+# ---- call sequences ------------------------------------------------------------------------------------
+SEQ_CASES = {
+    'rdms': dict(n_rdm=3, n_cond=4, vals='naninf', measure='ustr', desc=['int', 'str', 'mat', 'arr-precise'],
+                 rdm_desc=['list-str', 'arr-int', 'list-interleaved'], pat_desc=['arr-str', 'list-float']),
+    'dataset': dict(kind='dataset', n_obs=4, n_ch=3, vals='naninf', desc=['int', 'str', 'mat'], obs_desc=['list-str', 'list-interleaved'],
+                    ch_desc=['arr-str', 'arr-precise']),
+    'temporal': dict(kind='temporal', n_obs=4, n_ch=3, n_t=2, vals='inf', desc=['float', 'ustr'], obs_desc=['list-str'],
+                     ch_desc=['arr-int'], t_desc=['list-str']),
+    'result': dict(n_model=5, model_kinds=['fixed', 'weighted', 'select', 'interpolate', 'base'], variances='2d-nc', n_rdm=8, n_pattern=4),
+    'model': dict(mkind='weighted', n_cond=4, name='layer7'),
+}
+
+
+def _mk_any(kind, case, twin=0):
+    """the object of a case; twin=1: an object of the SAME shape, keys and types but different numbers"""
+    if kind == 'rdms':
+        return _mk_rdms(case, 500.0 * twin)
+    if kind in ('dataset', 'temporal'):
+        return _mk_dataset(case, 500.0 * twin)
+    if kind == 'result':
+        return _mk_result(dict(case, seed=case.get('seed', 0) + 17 * twin))
+    return _mk_model(case['mkind'], case.get('i', 0), case['n_cond'], case.get('seed', 0) + 17 * twin, name=case.get('name'),
+                     vals=case.get('vals', 'plain'))
+
+
+def _saver(kind, obj):
+    return _model_save(obj) if kind == 'model' else obj.save
+
+
+def _loader(kind):
+    from rsatoolbox.rdm import load_rdm
+    from rsatoolbox.data import load_dataset
+    from rsatoolbox.inference import load_results
+    return {'rdms': load_rdm, 'dataset': load_dataset, 'temporal': load_dataset, 'result': load_results, 'model': _model_load}[kind]
+
+
+def _store(save, fmt, target, td, stem):
+    """save to a fresh place; returns the locator (a str path or the BytesIO)"""
+    if target == 'bytesio':
+        bio = io.BytesIO()
+        save(bio, file_type=fmt)
+        return bio
+    p = os.path.join(td, stem + EXT[fmt])
+    if target == 'file':
+        with open(p, 'w+b') as fh:
+            save(fh, file_type=fmt)
+    else:
+        save(p, file_type=fmt)
+    return p
+
+
+def _fetch(load, loc, fmt):
+    if isinstance(loc, io.BytesIO):
+        loc.seek(0)
+        return load(loc, file_type=fmt)
+    return load(loc)
+
+
+def _mutate(kind, x):
+    """the CALLER changes an object he holds, in place (numbers, a descriptor, a name)"""
+    if kind == 'rdms':
+        x.dissimilarities[...] = 7
+        x.descriptors['mutated'] = 'yes'
+        x.dissimilarity_measure = 'changed'
+    elif kind in ('dataset', 'temporal'):
+        x.measurements[...] = 7
+        x.descriptors['mutated'] = 'yes'
+    elif kind == 'result':
+        x.evaluations[...] = 0.5
+        x.dof = 99
+        x.models.reverse()
+        x.method = 'changed'
+    else:
+        x.name = 'changed'
+        if x.rdm_obj is not None:
+            x.rdm_obj.dissimilarities[...] = 7
+            x.rdm_obj.descriptors['mutated'] = 'yes'
+
+
+@oracle('C16/sequence')
+def orc_sequence(case):
+    """call sequences.  Expected values: twins built a second time from the case (never saved, never passed to the library)."""
+    kind, fmt, target = case['kind'], case['fmt'], case['target']
+    oc = case.get('obj', SEQ_CASES[kind])
+    load = _loader(kind)
+    refA, refB = _mk_any(kind, oc, 0), _mk_any(kind, oc, 1)
+    A, B = _mk_any(kind, oc, 0), _mk_any(kind, oc, 1)
+    what = f'{kind} {fmt}/{target}'
+    with warnings.catch_warnings():
+        warnings.simplefilter('ignore')
+        with tempfile.TemporaryDirectory() as td:
+            if _cmp_any(kind, refA, B, 'set-up') is None:
+                return 'test set-up: the twin does not differ from the object'
+            # (1) two objects of the same shape, keys and types but other content, saved one after the other, loaded afterwards
+            locA = _store(_saver(kind, A), fmt, target, td, 'a1')
+            locB = _store(_saver(kind, B), fmt, target, td, 'b1')
+            gA, gB = _fetch(load, locA, fmt), _fetch(load, locB, fmt)
+            r = (_cmp_any(kind, refA, gA, f'{what}: first of two twins saved one after the other')
+                 or _cmp_any(kind, refB, gB, f'{what}: second of two twins saved one after the other'))
+            if r:
+                return r
+            # (2) the same call twice: a second save of the same object elsewhere, a second load of the first file
+            locA2 = _store(_saver(kind, A), fmt, target, td, 'a2')
+            r = (_cmp_any(kind, refA, _fetch(load, locA2, fmt), f'{what}: second save of the same object')
+                 or _cmp_any(kind, refA, _fetch(load, locA, fmt), f'{what}: second load of the same file'))
+            if r:
+                return r
+            # (3) an object the caller got from load must not change when the library is used again
+            held = copy.deepcopy(vars(gA))
+            _store(_saver(kind, B), fmt, target, td, 'b2')
+            _fetch(load, locB, fmt)
+            gA3 = _fetch(load, locA, fmt)
+            r = _strict(held, vars(gA), 'loaded ' + type(gA).__name__)
+            if r:
+                return f'{what}: an object returned by load changed when other objects were saved / loaded afterwards: {r}'
+            # (4) the caller changes the loaded object in place: the file (and whatever the loader keeps) still gives the original
+            _mutate(kind, gA)
+            r = _cmp_any(kind, refA, _fetch(load, locA, fmt), f'{what}: load after the caller changed the object loaded before')
+            if r:
+                return r
+            r = _cmp_any(kind, refA, gA3, f'{what}: an earlier load result after the caller changed another load result of the same file')
+            if r:
+                return r
+            # (5) the caller changes the ORIGINAL after saving: the file holds the object as it was when it was saved
+            _mutate(kind, A)
+            r = (_cmp_any(kind, refA, _fetch(load, locA, fmt), f'{what}: load after the caller changed the saved original')
+                 or _cmp_any(kind, refA, _fetch(load, locA2, fmt), f'{what}: load (second file) after the caller changed the saved original'))
+            if r:
+                return r
+            # (6) the loaded object saved again and loaded again
+            loc4 = _store(_saver(kind, gA3), fmt, target, td, 'a4')
+            r = _cmp_any(kind, refA, _fetch(load, loc4, fmt), f'{what}: loaded object saved and loaded again')
+            if r:
+                return r
+            # B was saved twice and never changed
+            return _cmp_any(kind, refB, B, f'{what}: in-memory twin after all calls')
+
+
+# ---- environment: a new interpreter with another hash seed ------------------------------------------------
+_INTERP_SCRIPT = r"""
+import json, sys, warnings
+warnings.simplefilter('ignore')
+import contracts.C16_c as T
+jobs = json.loads(sys.stdin.read())
+probs = []
+for j in jobs:
+    kind, fmt = j['kind'], j['fmt']
+    try:
+        ref = T._mk_any(kind, j['case'])
+        got = T._loader(kind)(j['path_in'])
+        r = T._cmp_any(kind, ref, got, 'file written by the parent interpreter, read here: %s %s' % (kind, fmt))
+        if r:
+            probs.append(r)
+        T._saver(kind, T._mk_any(kind, j['case']))(j['path_out'], file_type=fmt)
+    except Exception as e:
+        probs.append('%s %s: exception %s: %s' % (kind, fmt, type(e).__name__, e))
+print('C16-INTERP-RESULT ' + json.dumps(probs))
+"""
+
+
+def _interp_jobs():
+    ax = [k for k in AXIS_KINDS if k not in UNSAFE_AXIS]
+    ds = [k for k in DESC_KINDS if k not in FINDING_CLASS and k not in SOLO_DESC]
+    return [
+        ('rdms', dict(n_rdm=3, n_cond=5, vals='naninf', measure='ustr', desc=ds, rdm_desc=ax, pat_desc=ax, keys='unicode')),
+        ('dataset', dict(kind='dataset', n_obs=6, n_ch=3, vals='precise', desc=ds, obs_desc=ax, ch_desc=ax)),
+        ('temporal', dict(kind='temporal', n_obs=4, n_ch=3, n_t=4, vals='naninf', desc=ds, obs_desc=ax, ch_desc=ax, t_desc=ax, keys='unicode')),
+        ('result', dict(n_model=12, model_kinds=['fixed', 'weighted', 'select', 'interpolate', 'base', 'fixed-multi', 'fixed-vector'],
+                        variances='3d-nc', n_rdm=8, n_pattern=4, names=['über', 'm'], method=USTR, seed=5)),
+        ('model', dict(mkind='interpolate', n_cond=5, name=USTR, vals='precise')),
+    ]
+
+
+@oracle('C16/interpreter')
+def orc_interpreter(case):
+    """files written here are read in a NEW interpreter started with another PYTHONHASHSEED (expected value: the object built
+    there from the same case), and files written there are read here"""
+    import json
+    import subprocess
+    import sys
+    import rsatoolbox
+    root = os.path.dirname(os.path.dirname(os.path.abspath(__file__)))
+    lib = os.path.dirname(os.path.dirname(os.path.abspath(rsatoolbox.__file__)))      # the tree under test in THIS interpreter
+    env = dict(os.environ, PYTHONHASHSEED=str(case['hashseed']),
+               PYTHONPATH=os.pathsep.join([lib, root] + [p for p in os.environ.get('PYTHONPATH', '').split(os.pathsep) if p]))
+    with warnings.catch_warnings():
+        warnings.simplefilter('ignore')
+        with tempfile.TemporaryDirectory() as td:
+            jobs = []
+            for i, (kind, oc) in enumerate(_interp_jobs()):
+                for fmt in ('hdf5', 'pkl'):
+                    j = dict(kind=kind, fmt=fmt, case=oc, path_in=os.path.join(td, 'parent%d%s' % (i, EXT[fmt])),
+                             path_out=os.path.join(td, 'child%d%s' % (i, EXT[fmt])))
+                    _saver(kind, _mk_any(kind, oc))(j['path_in'], file_type=fmt)
+                    jobs.append(j)
+            pr = subprocess.run([sys.executable, '-c', _INTERP_SCRIPT], input=json.dumps(jobs), capture_output=True, text=True,
+                                env=env, cwd=root, timeout=600)
+            lines = [ln for ln in pr.stdout.splitlines() if ln.startswith('C16-INTERP-RESULT ')]
+            if pr.returncode != 0 or not lines:
+                return f'interpreter with PYTHONHASHSEED={case["hashseed"]} failed (rc {pr.returncode}): {pr.stderr[-400:]}'
+            probs = json.loads(lines[-1][len('C16-INTERP-RESULT '):])
+            if probs:
+                return f'under PYTHONHASHSEED={case["hashseed"]}: {probs[0]} ({len(probs)} failures)'
+            for j in jobs:
+                r = _cmp_any(j['kind'], _mk_any(j['kind'], j['case']), _loader(j['kind'])(j['path_out']),
+                             f"file written under PYTHONHASHSEED={case['hashseed']}, read by this interpreter: {j['kind']} {j['fmt']}")
+                if r:
+                    return r
+    return None
+
+
 # =====================================================================================================
 # domains
 # =====================================================================================================
-SAFE_DESC = [k for k in DESC_KINDS if k not in FINDING_CLASS]
+SAFE_DESC = [k for k in DESC_KINDS if k not in FINDING_CLASS and k not in SOLO_DESC]
 SAFE_AXIS = [k for k in AXIS_KINDS if k not in UNSAFE_AXIS]
 
 
@@ -1326,6 +1597,27 @@ def tier_c(run, thorough):
                                             fmt=fmt, target=target), 'size-1' if n_rdm == 1 else 'generic', function='RDMs.save')
         bd.check(orc_rdms, dict(n_rdm=2, n_cond=3, desc=[], rdm_desc=[], pat_desc=[], measure='none', fmt=fmt, target='path'),
                  'generic', function='RDMs.save')
+        # sweep: typed dissimilarities and extreme units (stored dtype and every bit of the values come back), once more through
+        # a second round trip of the loaded object
+        for n_rdm, n_cond in (((3, 4), (1, 2), (12, 5)) if thorough else ((3, 4),)):
+            for vals in TYPED_VALS + UNIT_VALS:
+                for target in (('path', 'bytesio', 'file') if thorough else ('path',)):
+                    bd.check(orc_rdms, dict(n_rdm=n_rdm, n_cond=n_cond, vals=vals, measure='str', desc=['int', 'arr-precise', 'arr-bigint'],
+                                            rdm_desc=['list-str', 'arr-u8', 'list-bigint'], pat_desc=['arr-precise', 'list-interleaved'],
+                                            fmt=fmt, target=target, twice=True),
+                             'typed-data' if vals in TYPED_VALS else 'extreme-units', function='RDMs.save')
+        # sweep: other spellings of a path; blanks in descriptor names; the second round trip with every descriptor kind
+        for target in TARGETS_X:
+            bd.check(orc_rdms, dict(n_rdm=2, n_cond=4, vals='naninf', measure='ustr', desc=SAFE_DESC, rdm_desc=SAFE_AXIS, pat_desc=SAFE_AXIS,
+                                    keys='unicode', fmt=fmt, target=target), 'path-spelling', function='RDMs.save')
+        bd.check(orc_rdms, dict(n_rdm=3, n_cond=4, vals='precise', desc=SAFE_DESC, rdm_desc=SAFE_AXIS, pat_desc=SAFE_AXIS, keys='spaces',
+                                fmt=fmt, target='path', twice=True), 'generic', function='RDMs.save')
+        # sweep: sizes -- more items than above, no RDM at all
+        for n_rdm, n_cond in (((25, 12), (0, 3), (40, 30), (2, 60)) if thorough else ((25, 12), (0, 3))):
+            bd.check(orc_rdms, dict(n_rdm=n_rdm, n_cond=n_cond, vals='precise' if n_rdm else 'plain', desc=SAFE_DESC,
+                                    rdm_desc=[k for k in SAFE_AXIS if n_rdm or k not in ('arr-float', 'arr-2d')], pat_desc=SAFE_AXIS,
+                                    fmt=fmt, target='path',
+                                    twice=True), 'size-0' if n_rdm == 0 else 'many-items', function='RDMs.save')
     bd.done()
     bds.append(bd)
 
@@ -1349,6 +1641,30 @@ def tier_c(run, thorough):
                             if kind == 'temporal':
                                 c.update(n_t=n_t, t_desc=SAFE_AXIS)
                             bd.check(orc_dataset, c, 'size-1' if 1 in (n_obs, n_ch, n_t) else 'generic', function='DatasetBase.save')
+        for kind in ('dataset', 'temporal'):
+            tk = dict(n_t=2, t_desc=['list-str', 'arr-f4']) if kind == 'temporal' else {}
+            # sweep: typed measurements and extreme units, second round trip
+            for n_obs, n_ch in (((4, 3), (1, 1), (7, 5)) if thorough else ((4, 3),)):
+                for vals in TYPED_VALS + UNIT_VALS:
+                    for target in (('path', 'bytesio', 'file') if thorough else ('path',)):
+                        bd.check(orc_dataset, dict(kind=kind, n_obs=n_obs, n_ch=n_ch, vals=vals, desc=['int', 'arr-precise', 'arr-bigint', 'mat'],
+                                                   obs_desc=['list-str', 'arr-u8', 'list-bigint', 'list-interleaved'], ch_desc=['arr-precise', 'arr-str'],
+                                                   fmt=fmt, target=target, twice=True, **tk),
+                                 'typed-data' if vals in TYPED_VALS else 'extreme-units', function='DatasetBase.save')
+            # sweep: other spellings of a path; blanks in descriptor names
+            tx = dict(n_t=3, t_desc=SAFE_AXIS) if kind == 'temporal' else {}
+            for target in TARGETS_X:
+                bd.check(orc_dataset, dict(kind=kind, n_obs=4, n_ch=3, vals='naninf', desc=SAFE_DESC, obs_desc=SAFE_AXIS, ch_desc=SAFE_AXIS,
+                                           keys='unicode', fmt=fmt, target=target, **tx), 'path-spelling', function='DatasetBase.save')
+            bd.check(orc_dataset, dict(kind=kind, n_obs=4, n_ch=3, vals='precise', desc=SAFE_DESC, obs_desc=SAFE_AXIS, ch_desc=SAFE_AXIS,
+                                       keys='spaces', fmt=fmt, target='path', twice=True, **tx), 'generic', function='DatasetBase.save')
+            # sweep: sizes -- more items than above; no observation / no channel at all
+            # (the arr-float palette entry has no length-0 form; an empty 2-D descriptor has no element whose shape could be compared)
+            ax0 = [k for k in SAFE_AXIS if k not in ('arr-float', 'arr-2d')]
+            for n_obs, n_ch in (((40, 12), (0, 3), (3, 0), (300, 40)) if thorough else ((40, 12), (0, 3), (3, 0))):
+                bd.check(orc_dataset, dict(kind=kind, n_obs=n_obs, n_ch=n_ch, vals='precise' if n_obs * n_ch else 'plain', desc=SAFE_DESC,
+                                           obs_desc=ax0, ch_desc=ax0, fmt=fmt, target='path', twice=True, **tx),
+                         'size-0' if 0 in (n_obs, n_ch) else 'many-items', function='DatasetBase.save')
     bd.done()
     bds.append(bd)
 
@@ -1393,6 +1709,39 @@ def tier_c(run, thorough):
                                           target='path'), {})
                 chk_one(orc_dataset, dict(kind='temporal', n_obs=2, n_ch=3, n_t=2, desc=[k], obs_desc=[ax], ch_desc=[ax], t_desc=[ax],
                                           keys=keys, fmt=fmt, target='path'), {})
+        # sweep: a ragged list with 12 entries (stored item by item under the names '0' .. '11': the alphabetical order of the
+        # names, '0', '1', '10', '11', '2', ..., is not the order of the items), lengths not following the position
+        for n in ((10, 12, 23) if thorough else (12,)):
+            c = dict(n_rdm=n, n_cond=3, desc=[], rdm_desc=['list-ragged3'], pat_desc=[], fmt=fmt, target='path', twice=True)
+            chk_one(orc_rdms, c, {'rdm_desc': n})
+            for kind in ('dataset', 'temporal'):
+                c = dict(kind=kind, n_obs=n, n_ch=2, desc=[], obs_desc=['list-ragged3'], ch_desc=[], fmt=fmt, target='path', twice=True)
+                if kind == 'temporal':
+                    c.update(n_t=n, t_desc=['list-ragged3'])
+                chk_one(orc_dataset, c, {'obs_desc': n})
+        if False:  # pending triage: range-descriptor
+            # a `range` as descriptor value (the constructors keep it as it is): the HDF5 writer neither stores nor rejects it
+            for target in ('path', 'bytesio'):
+                chk_one(orc_rdms, dict(n_rdm=2, n_cond=3, desc=['range'], rdm_desc=[], pat_desc=[], fmt=fmt, target=target), {})
+            chk_one(orc_dataset, dict(kind='dataset', n_obs=2, n_ch=3, desc=['range'], obs_desc=[], ch_desc=[], fmt=fmt, target='path'), {})
+            for n in (1, 3):
+                for where in ('rdm_desc', 'pat_desc'):
+                    c = dict(n_rdm=n, n_cond=n + 1, desc=[], rdm_desc=[], pat_desc=[], fmt=fmt, target='path')
+                    c[where] = ['range']
+                    chk_one(orc_rdms, c, {'rdm_desc': n, 'pat_desc': n + 1})
+                for where in ('obs_desc', 'ch_desc', 't_desc'):
+                    c = dict(kind='temporal', n_obs=n, n_ch=n, n_t=n, desc=[], obs_desc=[], ch_desc=[], t_desc=[], fmt=fmt, target='path')
+                    c[where] = ['range']
+                    chk_one(orc_dataset, c, {'obs_desc': n, 'ch_desc': n, 't_desc': n})
+        if False:  # pending triage: digit-string-key
+            # descriptors NAMED '0', '1', ...: the HDF5 reader takes a group whose names are '0' .. 'n-1' for a stored list
+            for k, ax in (('int', 'list-int'), ('str', 'list-str')):
+                chk_one(orc_rdms, dict(n_rdm=2, n_cond=3, desc=[k], rdm_desc=[ax], pat_desc=[ax], keys='digit', fmt=fmt, target='path'), {})
+                chk_one(orc_dataset, dict(kind='dataset', n_obs=2, n_ch=3, desc=[k], obs_desc=[ax], ch_desc=[ax], keys='digit', fmt=fmt,
+                                          target='path'), {})
+            chk_one(orc_dataset, dict(kind='dataset', n_obs=2, n_ch=3, desc=[], obs_desc=['list-int', 'list-str'], ch_desc=[], keys='digit',
+                                      fmt=fmt, target='path'), {})
+            chk_one(orc_rdms, dict(n_rdm=2, n_cond=3, desc=['dict'], rdm_desc=[], pat_desc=[], keys='digit', fmt=fmt, target='path'), {})
     bd.done()
     bds.append(bd)
 
@@ -1407,6 +1756,20 @@ def tier_c(run, thorough):
                     for target in (('path', 'file', 'bytesio') if (thorough or name == 'layer7') else ('path',)):
                         bd.check(orc_model, dict(mkind=mkind, n_cond=n_cond, name=name, fmt=fmt, target=target, i=2),
                                  'generic', function='model_from_dict')
+            if mkind == 'base':
+                continue
+            # sweep: model RDMs in full precision / extreme units / other dtypes (predictions identical), second round trip
+            for vals in (UNIT_VALS + ['f4', 'int', 'u1', 'i2', 'f2'] if (thorough or mkind in ('fixed', 'weighted', 'fixed-vector'))
+                         else ['precise', 'tiny']):
+                if mkind == 'fixed-vector' and vals in ('int', 'u1', 'i2'):
+                    # ModelFixed keeps an integer VECTOR as it is but predicts the float mean of the stored RDM after loading: equal
+                    # values of another dtype -- "the same predictions" does not promise the dtype
+                    continue
+                bd.check(orc_model, dict(mkind=mkind, n_cond=4, name='layer7', vals=vals, fmt=fmt, target='path', i=1, twice=True),
+                         'extreme-units' if vals in UNIT_VALS else 'typed-data', function='model_from_dict')
+        for target in TARGETS_X:
+            bd.check(orc_model, dict(mkind='select', n_cond=4, name=USTR, vals='precise', fmt=fmt, target=target, i=1), 'path-spelling',
+                     function='model_from_dict')
     bd.done()
     bds.append(bd)
 
@@ -1439,6 +1802,20 @@ def tier_c(run, thorough):
                                                   cv_method=cvm, eval_ndim=nd, nc=nc, eval_nan=(cvm == 'bootstrap_crossval'),
                                                   dof=5, method=USTR if cvm == 'fixed' else 'cosine', names=['über', 'm'],
                                                   fmt=fmt, target='path', seed=3), 'generic', function='result_from_dict')
+        # sweep: evaluations / variances / noise ceiling in extreme units and as float32, model RDMs in full precision, all models
+        # carrying the same name, other spellings of a path, second round trip
+        for n_model in ((2, 12, 21) if thorough else (2, 12)):
+            for extra, ic in ((dict(unit=1e-26), 'extreme-units'), (dict(unit=1e12), 'extreme-units'),
+                              (dict(ev_dtype='float32'), 'typed-data'), (dict(names_dup=True, model_vals='precise'), 'repeated-names'),
+                              (dict(model_vals='tiny', unit=1e-13), 'extreme-units')):
+                for vk, cvm, nd, nc in ((('2d-nc', 'bootstrap_rdm', 3, '1d'), ('3d-nc', 'bootstrap_crossval', 4, '2d'), ('1d', 'fixed', 3, '1d'))
+                                        if thorough else (('2d-nc', 'bootstrap_rdm', 3, '1d'),)):
+                    bd.check(orc_result, dict(n_model=n_model, model_kinds=mixes[1], variances=vk, n_rdm=8, n_pattern=4, cv_method=cvm,
+                                              eval_ndim=nd, nc=nc, fmt=fmt, target='path', seed=n_model, twice=True, **extra), ic,
+                             function='result_from_dict')
+        for target in TARGETS_X:
+            bd.check(orc_result, dict(n_model=3, model_kinds=mixes[1], variances='2d-nc', n_rdm=8, n_pattern=4, fmt=fmt, target=target,
+                                      seed=4, names=['über', 'm']), 'path-spelling', function='result_from_dict')
     bd.done()
     bds.append(bd)
 
@@ -1473,6 +1850,37 @@ def tier_c(run, thorough):
             for target in ('path', 'file'):
                 bd.check(orc_overwrite, dict(kind=kind, fmt=fmt, target=target), 'generic',
                          function='remove_file' if target == 'file' else 'write_dict_hdf5')
+                # sweep: what the existing file holds
+                for old in (('smaller', 'same', 'empty-file', 'garbage', 'other-format') if (thorough or kind in ('rdms', 'temporal'))
+                            else ('empty-file', 'other-format') if kind == 'dataset' else ('smaller',)):
+                    bd.check(orc_overwrite, dict(kind=kind, fmt=fmt, target=target, old=old), 'existing-file-' + old,
+                             function='remove_file' if target == 'file' else 'write_dict_hdf5')
+    bd.done()
+    bds.append(bd)
+
+    # ---- call sequences ------------------------------------------------------------------------------
+    bd = Bounded(run, 'C16/sequence', 'C16/save-load/oracle/call-sequences',
+                 '5 object kinds x {hdf5, pkl} x {str path, BytesIO; thorough: + file handle}: two twins of equal shape / keys / types '
+                 'and other content saved one after the other and loaded afterwards; second save / second load; a loaded object held by the '
+                 'caller while the library is used again; the caller changing a loaded object or the saved original in place, then loading '
+                 'again; loaded object saved and loaded again (expected values: twins built from the case, never given to the library)',
+                 exhaustive=False, function='save')
+    for kind in ('rdms', 'dataset', 'temporal', 'result', 'model'):
+        for fmt in fmts:
+            for target in (('path', 'bytesio', 'file') if thorough else ('path', 'bytesio')):
+                bd.check(orc_sequence, dict(kind=kind, fmt=fmt, target=target), 'call-sequence',
+                         function={'rdms': 'RDMs.save', 'result': 'Result.save', 'model': 'model_from_dict'}.get(kind, 'DatasetBase.save'))
+    bd.done()
+    bds.append(bd)
+
+    # ---- environment ---------------------------------------------------------------------------------
+    seeds = (1, 2, 12345, 4294967295) if thorough else (1,)
+    bd = Bounded(run, 'C16/interpreter', 'C16/save-load/oracle/other-interpreter',
+                 'RDMs / Dataset / TemporalDataset (all harmless descriptor kinds, unicode keys) / Result (12 mixed models) / one model, '
+                 'hdf5+pkl: written here and read in a new interpreter started with PYTHONHASHSEED = %s (this one runs with 0), written '
+                 'there and read here' % ', '.join(map(str, seeds)), exhaustive=False, function='load_*')
+    for hs in seeds:
+        bd.check(orc_interpreter, dict(hashseed=hs), 'other-hash-seed', function='load_*')
     bd.done()
     bds.append(bd)
 
